@@ -107,6 +107,21 @@ def _replay_blocks(blocks):
     return n, nontriv, drift[:5], viol[:5], samples
 
 
+def _replay_near(blocks):
+    n, nontriv, viol = 0, [], []
+    for b in blocks:
+        st = parse_state(b.strip())
+        fed = st['fed']
+        if len(fed) < 4:
+            continue
+        n += 1
+        v, _ = check_against_definition(fed, st['def4'], st['oF'], st['o3'])
+        viol += v
+        if len(st['def4']['cyc']) >= 1:
+            nontriv.append(fed)
+    return n, nontriv, [], viol[:5], []
+
+
 def _replay_rev(blocks):
     """Reversal-only signals over -3..3: the FKM detector against the HCM rule of the specification, the 3/4-point detectors against the definition."""
     n, nontriv, viol = 0, [], []
@@ -173,6 +188,24 @@ def run(chk):
         chk.evals(total)
         chk.part('replay_reversals', states_replayed=total)
         os.remove(res.dump_path)
+    # near ties: sample values whose ranges differ by one count at 2^24 .. 2^25 (different numbers that agree in their first seven digits)
+    cfg = os.path.join(SPEC, 'rainflow', 'MC_OnePiece_near_quick.cfg' if quick else 'MC_OnePiece_near_thorough.cfg')
+    res = tlc.run(TLA, cfg, dump=True, timeout=3000, heap='12g')
+    chk.tlc(os.path.basename(cfg), res, 'all strictly alternating signals over {0, 3, 2^24, 2^24+1, 2^25+1}, one piece: the same invariants where neighbouring ranges differ in the eighth digit')
+    if res.violated:
+        chk.machinery.append('model invariant %s violated at %s' % (res.violated, res.trace[-1:]))
+    if res.dump_path and os.path.exists(res.dump_path):
+        total = 0
+        for n, nontriv, drift, viol, samples in par.pmap(_replay_near, par.split_dump(res.dump_path, 64), chunksize=1):
+            total += n
+            for k in nontriv:
+                chk.nontrivial(k)
+            for what, case, exp, got in viol:
+                chk.violation(what, case, exp, got, part='replay_near_ties')
+        chk.cov['traces_validated_against_impl'] += total
+        chk.evals(total * 3)
+        chk.part('replay_near_ties', states_replayed=total, detectors=3)
+        os.remove(res.dump_path)
     # the chunked model also carries the C02 invariants in every chunked state (quick instance of C01)
     # (C) recorded one-piece executions of long integer signals, TLC evaluates the definition on the logged signal
     rng = random.Random(chk.seed * 104729 + 5)
@@ -217,7 +250,7 @@ def run(chk):
     chk.cov['rule'] = ('TLC enumerates every signal over Vals with 2..MaxLen samples (integer alphabet => ties are the common case); '
                        'each is replayed in one piece into the three detectors and compared with the definition-level result of the spec. '
                        'Non-trivial = the definition closes >= 1 cycle; distinct by signal. Recorded long signals validated by TLC (IsDefinition evaluated per trace).')
-    chk.cov['rule'] += ' Also: strictly alternating signals over -3..3 with up to 8 (9) samples (all replayed into the FKM detector, every fifth into the four-point detector).'
+    chk.cov['rule'] += ' Also: strictly alternating signals over -3..3 with up to 8 (9) samples (all replayed into the FKM detector, every fifth into the four-point detector); strictly alternating signals over {0, 3, 2^24, 2^24+1, 2^25+1} with up to 7 (9) samples (ranges that differ in the eighth digit), all three detectors.'
     chk.cov['exhaustive'] = True
     chk.assumptions += ['FKM part: oracle is the HCM rule in the guideline form pyLife documents (see DESIGN 9); equivalence with the 1985 publication not claimed',
                         'integer-valued samples', 'TLC/SANY/Json module; harness parser and projection']
